@@ -41,6 +41,7 @@ def run(ctx, rep):
     l4(ctx, rep)
     l5(ctx, rep)
     l6(ctx, rep)
+    l7(ctx, rep)
 
 
 # --------------------------------------------------------------------- L1 check_fit dominance
@@ -313,6 +314,93 @@ def l5(ctx, rep):
     for f in fits:
         rep.ok('L5.pure', f, f.node.name, 'closure scanned', construct='def fit') if not rng.consumes_unscoped(f) else None
     rep.floor('L5.pure', 'fit entry points', len(fits), 5)
+
+
+# ----------------------------------------------------------------------------- L7 memoisation
+MEMO_DECORATORS = ('functools.lru_cache', 'functools.cache', 'functools.cached_property', 'cachetools.cached', 'cachetools.cachedmethod')
+
+
+def l7(ctx, rep):
+    """A value derived from fitted state and kept on the instance (or in a per-instance cache) must be discarded when the
+    fitted state is rewritten: otherwise a refitted / re-parameterised model answers from the previous state."""
+    prog = ctx.prog
+    fx = get_attr_effects(ctx)
+    mw = MustWrite(ctx)
+    rep.rule('L7.memo', 'no query method memoises a value that depends on fitted state unless every fit resets it (lru_cache / cached_property on such '
+             'a method, or a lazily filled attribute that fit does not rewrite)')
+    n = 0
+    seen = set()
+    for cls in model_classes(prog):
+        F = fitted_state(ctx, cls) | {'theta', 'tau'} if cls.lookup('compute_theta') is not None else fitted_state(ctx, cls)
+        fit = cls.lookup('fit')
+        fit_closure = set(fx.closure(fit, cls)) if fit is not None else set()
+        fit_must = mw.must(cls, fit) if fit is not None else frozenset()
+        writers_of_F = set(fit_closure)
+        for nm in ('_compute_theta', 'from_dict', '_set_params', 'set_params'):
+            m_ = cls.lookup(nm)
+            if m_ is not None:
+                writers_of_F |= set(fx.closure(m_, cls))
+        methods = {}
+        for c in cls.mro():
+            for name, m in c.methods.items():
+                methods.setdefault(name, m)
+        for name, m in sorted(methods.items()):
+            if m.kind != 'method' or not m.self_name or name.startswith('__') or m.qualname in writers_of_F:
+                continue
+            reads, _w = fx.transitive(m, cls)
+            dep = sorted(set(reads) & F)
+            # (a) decorator caches keyed by (self, args)
+            memo = [d for d in m.decorators if d in MEMO_DECORATORS or d.split('.')[-1] in ('lru_cache', 'cache', 'cached_property', 'memoize')]
+            for d_ in m.node.decorator_list:
+                nm_ = prog.resolve(m.module, d_.func if isinstance(d_, ast.Call) else d_) or ''
+                if nm_ in MEMO_DECORATORS and nm_ not in memo:
+                    memo.append(nm_)
+            key = (m.qualname,)
+            if memo and key not in seen:
+                seen.add(key)
+                n += 1
+                if dep:
+                    rep.bad('L7.memo', m, m.node.name, f'{memo[0]} caches {m.short} per (instance, arguments) but its result depends on self.{dep[0]}'
+                            f'{" and " + str(len(dep) - 1) + " more fitted attribute(s)" if len(dep) > 1 else ""}: after fit / a new theta the cached values of the '
+                            'previous state are returned', construct=f'{m.short}: memoised')
+                else:
+                    rep.ok('L7.memo', m, m.node.name, f'{memo[0]}: the result does not depend on fitted state', construct=f'{m.short}: memoised')
+            # (b) lazily filled attributes
+            d = fx.direct(m)
+            for attr, nodes in sorted(d['writes'].items()):
+                if attr in F or cls.lookup(attr) is not None or attr in ('random_state',):
+                    continue
+                for node in nodes:
+                    st = node
+                    while st is not None and not isinstance(st, ast.stmt):
+                        st = getattr(st, '_parent', None)
+                    if not isinstance(st, ast.Assign):
+                        continue
+                    # what the stored value depends on: self attributes read directly or through self-method calls
+                    vdeps = set()
+                    for x in ast.walk(st.value):
+                        if is_self_attr(x, m.self_name) and isinstance(x.ctx, ast.Load):
+                            par = getattr(x, '_parent', None)
+                            if isinstance(par, ast.Call) and par.func is x:
+                                callee = cls.lookup(x.attr)
+                                if callee is not None:
+                                    r2, _ = fx.transitive(callee, cls)
+                                    vdeps |= set(r2)
+                            else:
+                                vdeps.add(x.attr)
+                    vdep = sorted(vdeps & F)
+                    k2 = (cls.qualname, m.qualname, attr)
+                    if not vdep or k2 in seen:
+                        continue
+                    seen.add(k2)
+                    n += 1
+                    reset = attr in fit_must
+                    rep.check('L7.memo', m, st, reset, f'self.{attr} (derived from self.{vdep[0]}) is rewritten by every fit',
+                              f'{m.short} keeps self.{attr}, computed from self.{vdep[0]}, on the instance, and fit / _compute_theta never reset it: '
+                              'after a refit or a new theta the value of the previous state is used', construct=f'{cls.name}.{attr}: derived from fitted state')
+    if n == 0:
+        rep.ok('L7.memo', prog.functions[next(iter(prog.functions))], 'package', 'no memoised method and no lazily filled attribute derived from fitted state in any model class',
+               construct='memoisation sites')
 
 
 # ----------------------------------------------------------------------------- L6 cloning
